@@ -21,11 +21,12 @@ namespace S3V.XmlSpec
 open S3V S3V.Xml
 
 /-- the string a run of character-data events denotes; `none` if the run contains an element tag, an
-unresolvable reference or bytes that are not UTF-8 -/
+unresolvable reference, bytes that are not UTF-8 or a text piece with `]]>` -/
 def charsMeaning : List QEv → Option Bytes
   | [] => some []
   | .text raw :: r =>
-    if utf8Valid raw then
+    if containsSub [93, 93, 62] raw then none     -- [14] CharData: `]]>` is no character data
+    else if utf8Valid raw then
       match unescape (normEol raw), charsMeaning r with
       | some a, some b => some (a ++ b)
       | _, _ => none
